@@ -18,7 +18,7 @@ EXHAUSTIVE = {"quick": True, "thorough": True}
 RULE = ("exhaustive: every GT string over alleles {., 0, 1, 2, 3, 70}, separators {/, |}, ploidy 1-3 (942 strings; the lone '.' is VCF's "
         "missing-VALUE token, not a ploidy-1 genotype, and is excluded from the oracle's domain - 941 classified), each in its own "
         "one-record two-sample input, x role {selected, unselected, one of two selected samples next to a complete/missing/multiallelic one, before and after it, with and without projection} x container {vcf, raw bcf, bgzf bcf, bgzf vcf}; quick runs L2 for all and C "
-        "for vcf + raw bcf, thorough all four containers at C. A supplementary (not exhaustive) sweep uses allele indices 255..2^63-1 around powers of two in the VCF path. Non-trivial: every string except 0/0; distinct = (string, role, container, level).")
+        "for vcf + raw bcf, thorough all four containers at C. Further: every GT string over {., 0} at records without an ALT allele; a non-diploid genotype in an unselected column that precedes the selected one. A supplementary (not exhaustive) sweep uses allele indices 255..2^63-1 around powers of two in the VCF path. Non-trivial: every string except 0/0; distinct = (string, role, container, level).")
 ASSUMPTIONS = ["'./2' style strings (missing AND multiallelic) may be reported with either reason; only 'skipped' is required",
                "allele 70 forces an int16 GT vector in BCF"]
 FLOORS = {"quick": {"evaluations": 5000, "distinct_nontrivial": 5000, "counts": {"L2_classifications": 3700, "C_runs": 3700, "C_pair_runs": 5000, "C_big_allele_runs": 200}},
@@ -44,13 +44,16 @@ def plan(tier, seed):
     return [{"name": "s%d" % i, "i": i, "gts": [gt_str(g) for g in al[i::NSHARD]], "cont_c": cont_c} for i in range(NSHARD)]
 
 
-def make_cs(g, role, other="0/1"):
+def make_cs(g, role, other="0/1", nalt=None, swap_columns=False):
     other = parse_gt(other)
     maxa = max([a for a in g[0] if a is not None] + [1])
     gts = [g, other] if role in ("selected", "first") else [other, g]
-    maxa = max(maxa, 2)
+    maxa = max(maxa, 2) if nalt is None else nalt
+    names = ["sel", "oth"]
+    if swap_columns:
+        gts, names = gts[::-1], names[::-1]
     rec = Record("ctg7", 4242, gts, ref="A", alts=ALTS[:maxa])
-    return CallSet(["sel", "oth"], [("ctg7", 100000)], [rec])
+    return CallSet(names, [("ctg7", 100000)], [rec])
 
 
 CODE = {"missing": 3, "multi": 4, "ploidy": 5}
@@ -97,9 +100,60 @@ def big_allele_sweep(S, p):
         S.case(key="CB|%s" % s_, nontrivial=True)
 
 
+def no_alt_and_column_order(S, p):
+    """(1) Records WITHOUT an ALT allele (ALT '.', monomorphic sites of all-sites VCFs): every GT string over {., 0}, ploidy 1-3.
+    (2) A non-diploid genotype in an UNSELECTED sample whose column comes BEFORE the selected one."""
+    from .. import replay as R
+    strings = []
+    for ploidy in (1, 2, 3):
+        for alleles in itertools.product([None, 0], repeat=ploidy):
+            for ph in itertools.product([False, True], repeat=ploidy - 1):
+                strings.append(gt_str((tuple(alleles), tuple(ph))))
+    jobs = []
+    for s_ in strings:
+        if s_ != ".":
+            for container in ("vcf", "rawbcf", "vcf.gz"):
+                jobs.append(("no-alt", s_, container))
+    for s_ in [gt_str(g_) for g_ in alphabet() if len(g_[0]) != 2][::3]:
+        if s_ != ".":
+            for container in ("vcf", "rawbcf"):
+                jobs.append(("unselected-first", s_, container))
+    for k, (what, s_, container) in enumerate(jobs):
+        if k % NSHARD != p["i"]:
+            continue
+        g = parse_gt(s_)
+        c = classify(g)
+        if any(a is not None and a >= 63 for a in g[0]) and container != "vcf":
+            continue
+        if what == "no-alt":
+            cs = make_cs(g, "selected", other="0/0", nalt=0)
+            r = E.cli_create(E.encode(cs, container, None, layout="single"), [("sel", None)], extra=["-vv"])
+            S.count("C_no_alt_runs")
+            if c[0] == "ploidy":
+                okk = r.rc != 0 and not r.out and b"ctg7:4242" in r.err
+                rp = R.reject(r, "ctg7:4242")
+            else:
+                want = b"#SHAPE=<3>\n1 0 0\n" if c[0] == "geno" else b"#SHAPE=<3>\n0 0 0\n"
+                okk = r.rc == 0 and r.out == want
+                rp = R.exact(r, want)
+            if not okk or r.panicked:
+                S.viol("C08:no-alt:%s" % container, "[C %s GT %s at a record without ALT allele] rc %s stdout %r stderr %r" % (container, s_, r.rc, r.out[:60], r.err[:160]),
+                       {"gt": s_, "level": "C", "argv": r.argv, "run": r.brief(), "replay": rp})
+        else:
+            cs = make_cs(g, "unselected", swap_columns=True)      # columns: oth (odd genotype) first, sel second; only sel is listed
+            r = E.cli_create(E.encode(cs, container, None, layout="single"), [("sel", None)])
+            S.count("C_unselected_first_runs")
+            if r.rc != 0 or r.out != b"#SHAPE=<3>\n0 1 0\n":
+                S.viol("C08:unselected-first:%s" % container, "[C %s GT %s in an unselected sample whose column precedes the selected one] rc %s stdout %r stderr %r" % (
+                    container, s_, r.rc, r.out[:60], r.err[:160]), {"gt": s_, "level": "C", "argv": r.argv, "run": r.brief(), "replay": R.exact(r, b"#SHAPE=<3>\n0 1 0\n")})
+        S.count("C_runs")
+        S.case(key="CX|%s|%s|%s" % (what, s_, container), nontrivial=True)
+
+
 def shard(S, p):
     if "replay" not in p:
         big_allele_sweep(S, p)
+        no_alt_and_column_order(S, p)
     gts = p["gts"] if "replay" not in p else [p["replay"]["gt"]]
     cont_c = p.get("cont_c", ["vcf", "rawbcf", "bcf", "vcf.gz"])
     # ---------------- L2: classification codes from the genotype reader
